@@ -141,6 +141,22 @@ ReencodePrediction(kind, b) ==
     [] kind \in {"sig", "csig"} -> Enc(ReSig3(it))
 
 
+\* C09, as the property words it: output and input agree in both header buckets of every layer byte for byte and in the
+\* payload and signature VALUES; only the width of the payload / signature length prefixes and of the signatures-array
+\* head may differ (in either direction).
+SameSig3UpToWidths(a, b) == /\ IsArr(a) /\ IsArr(b) /\ Len(a.xs) = 3 /\ Len(b.xs) = 3
+                            /\ a.xs[1] = b.xs[1] /\ a.xs[2] = b.xs[2] /\ W0(a.xs[3]) = W0(b.xs[3])
+SameUpToAllowedWidths(kind, out, in) ==
+  LET a == Body(kind, out) b == Body(kind, in) IN
+  /\ a.ok /\ b.ok
+  /\ IF kind \in {"sig", "csig"} THEN SameSig3UpToWidths(a.item, b.item)
+     ELSE /\ Len(a.item.xs) = 4 /\ Len(b.item.xs) = 4
+          /\ a.item.xs[1] = b.item.xs[1] /\ a.item.xs[2] = b.item.xs[2] /\ W0(a.item.xs[3]) = W0(b.item.xs[3])
+          /\ IF kind = "sign"
+             THEN /\ IsArr(a.item.xs[4]) /\ IsArr(b.item.xs[4]) /\ Len(a.item.xs[4].xs) = Len(b.item.xs[4].xs)
+                  /\ \A i \in 1..Len(a.item.xs[4].xs) : SameSig3UpToWidths(a.item.xs[4].xs[i], b.item.xs[4].xs[i])
+             ELSE W0(a.item.xs[4]) = W0(b.item.xs[4])
+
 \* C09: the canonical form obtained after the caller discards the retained raw bytes of every layer:
 \* each protected bucket re-encoded deterministically (h'' when empty), each unprotected bucket sorted with shortest
 \* heads, nested countersignatures treated the same way, payload / signature heads shortest.
